@@ -44,7 +44,7 @@ let pool_case toks impl_line =
   | [] -> ("?", "oracle=badcase")
 
 (* ---- accept loop / server scenarios ---- *)
-type ctok = Cmd of cmd | ErrThenConnect of int | Burst of int * int
+type ctok = Cmd of cmd | ErrThenConnect of int | ErrThenRevoke of int | Burst of int * int
 let parse_cmd (t : string) : ctok =
   if t = "c" || t = "C" then Cmd KConnect      (* C: the first request is an upload head without body; same transitions *)
   else if t = "r" then Cmd KRevoke
@@ -61,6 +61,7 @@ let parse_cmd (t : string) : ctok =
   match strip_prefix "p" t with Some _ -> Cmd (KErrors O) | None ->       (* half a head: no transition *)
   match strip_prefix "u" t with Some _ -> Cmd (KErrors O) | None ->       (* head + part of the body: none *)
   match strip_prefix "f" t with Some e -> ErrThenConnect (int_of_string e) | None ->
+  match strip_prefix "F" t with Some e -> ErrThenRevoke (int_of_string e) | None ->
   failwith ("bad cmd " ^ t)
 
 let b01 b = if b then "1" else "0"
@@ -104,6 +105,9 @@ let scen_case which full toks impl_line =
         | ErrThenConnect e ->
           let m1 = do_cmd true full n m (KErrors (nat e)) in
           let m' = do_cmd true full n m1 KConnect in (m', pr_obs full n m' :: acc)
+        | ErrThenRevoke e ->
+          let m1 = do_cmd true full n m (KErrors (nat e)) in
+          let m' = do_cmd true full n m1 KRevoke in (m', pr_obs full n m' :: acc)
         | Burst (k, j) ->
           (* j requests arriving in one read: j KRequest commands, one observation *)
           let rec go i m = if i = 0 then m else go (i - 1) (do_cmd true full n m (KRequest (nat k))) in
@@ -111,7 +115,7 @@ let scen_case which full toks impl_line =
         (sim_init n, []) cts in
     let (mfin, _) = run_cmds true full n m (recover_cmds n m) in
     let model = Printf.sprintf "%s ; %s ; over=0" (String.concat " " (List.rev obs_rev)) (pr_obs full n mfin) in
-    let cmds = List.map (function Cmd c -> c | ErrThenConnect _ -> KConnect | Burst (k, _) -> KRequest (nat k)) cts in
+    let cmds = List.map (function Cmd c -> c | ErrThenConnect _ -> KConnect | ErrThenRevoke _ -> KRevoke | Burst (k, _) -> KRequest (nat k)) cts in
     let verdict =
       (match split_ws impl_line with
        | "panic" :: _ -> "oracle=fail@panic"
